@@ -1,19 +1,24 @@
-(* BatchStressCorr.v — free-running (ungated) concurrent batches in stop mode, judged by what
-   follows for EVERY schedule from C09_stop_skips (an item that had not passed its stop-flag
-   check when the flag went up is never executed), C09_stop_flag_permanent and
-   C07_one_worker_per_item: an item that was skipped (slot "batch stopped") was received after
-   the flag went up; every item with a larger index was received later still, so it is executed
-   only if one of the other workers had already taken it past the check: at most workers - 1
-   executed items have a larger index than any skipped item.  Indices are Z (batches of
-   thousands of items). *)
+(* BatchStressCorr.v — free-running (ungated) concurrent batches in stop mode.  The run: workers - 1
+   items are held inside their exec callback by the harness; the next worker runs an item that
+   fails; the harness lets the held items go a fixed time D later (20..60 ms), while the rest of
+   the queue - hundreds of thousands of instant items - takes several times D to drain.
+   What every schedule allows (C09_stop_skips, C09_stop_flag_permanent, C07_one_worker_per_item):
+   until the failure is recorded only the one free worker receives items, in index order, so
+   the executed items are the held ones and a prefix of the others ending with the failing item;
+   once the failure is recorded the flag is up for good and every item received later is
+   skipped.  So, PROVIDED the failure is recorded before the held items are let go (the worker
+   is not suspended for more than D between returning from the item's processing and taking
+   the mutex - a timing assumption of this part, stated in DESIGN.md 14.5), no executed item has
+   a larger index than a skipped one; the check allows workers - 1 of them.  Indices are Z. *)
 From Coq Require Export List ZArith Bool.
 Export ListNotations.
 #[local] Open Scope Z_scope.
 
 Record bstress := {
   bs_n : Z; bs_workers : Z;
-  bs_executed : list Z;          (* items for which the exec callback ran *)
-  bs_skipped : list Z;           (* items whose slot is the "batch stopped" error *)
+  bs_executed : list Z;          (* items for which the exec callback ran (at most 1000 of those above
+                                    the smallest skipped one are listed) *)
+  bs_skipped : list Z;           (* the smallest item whose slot is the "batch stopped" error, if any *)
   bs_fake : Z;                   (* items that were not executed and whose slot is not an error *)
   bs_wrong : Z;                  (* executed items whose slot is not what their own exec returned *)
   bs_posts : Z;                  (* times the post callback ran *)
